@@ -31,6 +31,8 @@ from axilib import (make_shared, make_xbar, make_arb, make_dec, make_p2p, make_s
                     product_letters, m_part, s_part, split_outs, split_letter, AxiEnv, WalkEnv, AxiMonitor,
                     NM, NS, AWV, AWA, AWP, WV, WP, BR, ARV, ARA, ARP, RR, AWR, WR, BV, BP, ARR, RV, RL, RP)
 from wblib import DecAll, DecHi, DecSet, DecRegion
+import c08lib
+from c08lib import make_soc_axi
 
 FMT = ("per master: aw.valid aw.addr aw.pay w.valid w.pay b.ready ar.valid ar.addr ar.pay r.ready; per slave: aw.ready "
        "w.ready b.valid b.pay ar.ready r.valid r.last r.pay  (outputs: per slave the 10 master-side numbers it sees, "
@@ -122,6 +124,8 @@ def jobs(tier, seed=0):
     # ---- mode A ---------------------------------------------------------------------------------------------
     A("AXILitePointToPoint joint", lambda **k: make_p2p(**k),
       lambda: _joint_alphabet(1, 1, (0, 2), False, seed, 400))
+    A("AXIPointToPoint joint", lambda **k: make_p2p(full=True, **k),
+      lambda: _joint_alphabet(1, 1, (0, 2), True, seed, 400))
     for full in (False, True):
         T = X._tag(full)
         for d in ("w", "r"):
@@ -226,12 +230,20 @@ def jobs(tier, seed=0):
     # ---- parameter corners and glue (hardening audit) -------------------------------------------------------------
     # through soc.SoCBusHandler (class selection, SoCRegion.decoder, interconnect_register=True, timeout=1e6)
     soc_regions = [(0x10000000, 0x1000), (0x40000000, 0x10000), (0x80000000, 0x3000)]
-    B("SoCBusHandler axi-lite shared 2x3/32b", lambda **k: make_soc_bus(2, soc_regions, "shared", **k))
-    B("SoCBusHandler axi-lite crossbar 3x2/32b", lambda **k: make_soc_bus(3, soc_regions[:2], "crossbar", **k))
-    B("SoCBusHandler axi shared 2x2/64b", lambda **k: make_soc_bus(2, soc_regions[1:], "shared", full=True, data_width=64, **k))
-    B("SoCBusHandler axi-lite 1x1 origin 0 (point-to-point)/32b", lambda **k: make_soc_bus(1, [(0, 0x10000)], "shared", **k))
+    # (the MODEL of these instances is chosen by the Lean side: `open socaxi` = SocAxi.fabric over b-c06's busTopology,
+    # incl. the AXI(Lite)Timeout FSM with timeout_cycles = 1e6 in the shared interconnect)
+    B("SoCBusHandler axi-lite shared 2x3/32b", lambda **k: make_soc_axi(2, soc_regions, "shared", **k))
+    B("SoCBusHandler axi-lite crossbar 3x2/32b", lambda **k: make_soc_axi(3, soc_regions[:2], "crossbar", **k))
+    B("SoCBusHandler axi shared 2x2/64b", lambda **k: make_soc_axi(2, soc_regions[1:], "shared", full=True, data_width=64, **k))
+    B("SoCBusHandler axi-lite 1x1 origin 0 (point-to-point)/32b", lambda **k: make_soc_axi(1, [(0, 0x10000)], "shared", **k))
     B("SoCBusHandler axi crossbar 1x1 origin 0x1000 (not point-to-point)/32b",
-      lambda **k: make_soc_bus(1, [(0x1000, 0x1000)], "crossbar", full=True, **k))
+      lambda **k: make_soc_axi(1, [(0x1000, 0x1000)], "crossbar", full=True, **k))
+    B("SoCBusHandler axi 1x1 origin 0 whole space (point-to-point)/32b",
+      lambda **k: make_soc_axi(1, [(0, 1 << 32)], "crossbar", full=True, **k))
+    B("SoCBusHandler axi-lite shared 1x2 first origin 0 (decoded)/32b",
+      lambda **k: make_soc_axi(1, [(0, 0x1000), (0x40000000, 0x2000)], "shared", **k))
+    B("SoCBusHandler axi-lite shared 2x1 origin 0 (decoded), no timeout/32b",
+      lambda **k: make_soc_axi(2, [(0, 0x10000)], "shared", timeout=None, **k))
     dcor = [DecRegion(0, 0x10000), DecRegion(0x90000000, 0x3000)]
     wcor = " ".join(d.word() for d in dcor)
     # class-default timeout (1e6 cycles: the AXI(Lite)Timeout must stay invisible), register=True (accepted, unused)
@@ -272,6 +284,7 @@ def jobs(tier, seed=0):
         B("AXIShared 2x2 id_width=4/32b [%s]" % wcor,
           lambda **k: make_shared(2, dcor, full=True, id_width=4, data_width=32, address_width=32, **k))
     B("AXILitePointToPoint/32b", lambda **k: make_p2p(data_width=32, address_width=32, **k))
+    B("AXIPointToPoint/64b", lambda **k: make_p2p(full=True, data_width=64, address_width=32, **k))
     B("AXILiteArbiter 3->1/32b", lambda **k: make_arb(3, data_width=32, address_width=32, **k))
     B("AXIDecoder 1->3 regions/32b", lambda **k: make_dec(_region_map(random.Random(seed + 5), 3), full=True, data_width=32,
                                                         address_width=32, **k))
@@ -369,6 +382,29 @@ def _saturation_case(ctx):
                 dis.append(Disagreement(inst, trace[:t + 1], t, outs, model[t]))
                 break
         ctx.cov.add_cases("counter saturation inside " + label, len(trace), len(trace))
+    # the run of the Lean witness `axl_counter_saturation_witness` on the real netlist: master 0 gets 256 read addresses
+    # accepted, 255 are answered, master 1 asks, the 256th response arrives
+    inst = make_shared(2, [DecAll()], data_width=32, address_width=32)
+    idle = m_part()
+    trace = [tuple(m_part(ar=(4 * k & 0xffff, 2)) + idle + s_part(ar_ready=1)) for k in range(256)]
+    trace += [tuple(m_part(r_ready=1) + idle + s_part(r=(1, k & 0xff))) for k in range(255)]
+    trace += [tuple(idle + m_part(ar=(0x40, 2)) + s_part())]
+    trace += [tuple(m_part(r_ready=1) + m_part(ar=(0x40, 2), r_ready=1) + s_part(r=(1, 0x99)))]
+    ctx.lean.open(inst.lean_open)
+    model = ctx.lean.run(trace)
+    ctx.lean.close_session()
+    outs = None
+    for t, l in enumerate(trace):
+        outs = impl_step(inst, l)
+        if not _masked_equal(inst, outs, model[t]):
+            dis.append(Disagreement(inst, trace[:t + 1], t, outs, model[t]))
+            break
+    else:
+        _, to_m = split_outs(outs, 2, 1)
+        ctx.cov.notes.append("saturation witness on the real AXILiteInterconnectShared 2x1: after 256 accepted reads of master 0 "
+                             "and 255 responses the 256th response is delivered to master %s (r.valid at master 0/1 = %d/%d)"
+                             % ("1, not to its issuer" if to_m[1][RV] and not to_m[0][RV] else "0", to_m[0][RV], to_m[1][RV]))
+    ctx.cov.add_cases("counter saturation witness (grant moves with one response outstanding)", len(trace), len(trace))
     return dis
 
 
@@ -553,13 +589,16 @@ def correspond(ctx):
                          "litex.gen.sim.core.Evaluator on every instance of every run and by two Evaluator-only mode-B instances"]
     ctx.jobs = jobs(ctx.tier, ctx.seed)
     dis = []
-    for part in (_corpus, _counter_cases, _rr_cases, _saturation_case):
+    parts = (_corpus, _counter_cases, _rr_cases, _saturation_case, c08lib.soc_fabric_cases, c08lib.check_params_cases,
+             lambda c: c08lib.local_rules_cases(c, MAPS, _region_map, quick=c.tier == "quick"))
+    for part in parts:
         try:
             dis += part(ctx)
         except Exception as e:
             import traceback
-            dis.append({"kind": "correspondence-exception", "instance": part.__name__,
-                        "what": "%s raised %r" % (part.__name__, e), "traceback": traceback.format_exc()[-1500:]})
+            pname = getattr(part, "__name__", "local_rules_cases")
+            dis.append({"kind": "correspondence-exception", "instance": pname,
+                        "what": "%s raised %r" % (pname, e), "traceback": traceback.format_exc()[-1500:]})
             try:
                 ctx.lean.close_session()
             except Exception:
